@@ -244,6 +244,9 @@ def history_case(ctx, case):
         if o.exits != 1:
             ctx.fail('history', 'K4-exit-callback', case, o.exits, 1)
         link = world.links[-1]
+        if world.open_handles():
+            ctx.fail('history', 'K4-descriptor-left-open', case,
+                     world.open_handles(), 'socket and file object closed')
         if not link.closed_by_client():
             ctx.fail('history', 'K4-link-left-open', case)
         else:
@@ -480,6 +483,10 @@ def write_error_case(ctx, case):
                                        json_data='{"text":"bye"}'))
         srv.close()
         world.links[0].send_error = err
+        if case['error'] in ('reset', 'aborted'):
+            # after an RST the endpoint is not connected any more: the
+            # client's own shutdown() fails too
+            world.links[0].peer_reset = True
     with vnet.installed(world):
         conn, o = servers.make_connection(world, allowed_versions={version})
 
@@ -514,6 +521,10 @@ def write_error_case(ctx, case):
         return
     if not world.links[0].closed_by_client():
         ctx.fail('write_error', 'K4-link-left-open', case)
+        return
+    if world.open_handles():
+        ctx.fail('write_error', 'K4-descriptor-left-open', case,
+                 world.open_handles(), 'socket and file object closed')
         return
     ctx.nt('write_error', repr(case))
     ctx.label('write_error_then_disconnect')
